@@ -205,6 +205,10 @@ def random_plan(rng, n_workers, signals=(), now=None, budget=200000, policies=No
     if rng.random() < 0.25:
         plan.iofault = "sw=%d" % rng.getrandbits(31)
     plan.timeouts = rng.choice((0, 1, 1, 2, 4))
+    # one run in five: reads of the input files (and of extracted copies) return fewer bytes than asked for in most calls
+    if rng.random() < 0.2:
+        sr = "sr=%d" % rng.getrandbits(31)
+        plan.iofault = sr if not plan.iofault else plan.iofault + ";" + sr
     return plan
 
 
